@@ -318,7 +318,23 @@ func genC11(g *G) {
 			g.EmitImpl(J{"op": "fuzz.decode", "what": whats[g.R.Intn(len(whats))], "raw": hexs(pick())}, "fuzz-decode")
 		}
 	}
-	// 4. thorough: replay the other areas' case streams under the no-panic monitor
+	// 4. quick: every second case of the LLO state-machine streams (threaded histories, handovers with
+	// promotion by a retirement report, convergence scripts, whole Observation() calls) under the no-panic monitor
+	if !g.Thorough() {
+		for _, p := range []string{"C03", "C04", "C14"} {
+			for _, gen := range gens[p] {
+				k := 0
+				sub := &G{R: g.R, Tier: "quick", Prop: p, emit: func(c Case) {
+					k++
+					if k%2 == 0 {
+						g.emit(c)
+					}
+				}}
+				gen(sub)
+			}
+		}
+	}
+	// 5. thorough: replay the other areas' case streams under the no-panic monitor
 	if g.Thorough() {
 		for _, p := range []string{"C07", "C08", "C09", "C10", "C12", "C13", "C16", "C17", "C02", "C15", "C03", "C04", "C14"} {
 			for _, gen := range gens[p] {
@@ -349,13 +365,26 @@ func monC11(op J, res any) (viol []Violation, nontrivial bool) {
 	r := jObj(res)
 	nontrivial = jStr(op["raw"]) != "" || op["obs"] != nil || op["outcome"] != nil || op["obsRaw"] != nil
 	if r == nil || r["panic"] == nil {
-		// history-style results carry per-round panics
-		if ok := jObj(res); ok != nil {
-			for _, o := range jArr(ok["ok"]) {
-				if m := jObj(o); m != nil && m["panic"] != nil {
-					viol = append(viol, Violation{Sig: "C11/panic-" + jStr(op["op"]), Desc: "a plugin callback panicked inside a history: " + jStr(m["panic_msg"]), Op: op, Res: res})
+		// history-style results carry per-round panics, at any depth (llo.history: a list; llo.handover: two lists)
+		var walk func(v any)
+		walk = func(v any) {
+			switch t := v.(type) {
+			case map[string]any:
+				if t["panic"] != nil {
+					viol = append(viol, Violation{Sig: "C11/panic-" + jStr(op["op"]), Desc: "a plugin callback panicked inside a history: " + jStr(t["panic_msg"]), Op: op, Res: res})
+					return
+				}
+				for _, x := range t {
+					walk(x)
+				}
+			case []any:
+				for _, x := range t {
+					walk(x)
 				}
 			}
+		}
+		if ok := jObj(res); ok != nil {
+			walk(ok["ok"])
 		}
 		return
 	}
